@@ -40,6 +40,7 @@ func main1() error {
 		return err
 	}
 	for _, reason := range reasons {
+		nextDup = 0
 		nextTmp = 0
 		names = map[string]bool{}
 		if err := gen(reason); err != nil {
@@ -86,6 +87,7 @@ func loadReasons() ([]string, error) {
 }
 
 var (
+	nextDup int
 	nextTmp int
 	names   map[string]bool
 	out     bytes.Buffer
@@ -144,14 +146,22 @@ func genClaim(claim string) error {
 }
 
 func genParseBinaryOps(n *node, arg string) error {
-	l := genName(n.lhs)
-	r := genName(n.rhs)
+	l, lFirst := genClaimName(n.lhs)
+	r, rFirst := genClaimName(n.rhs)
 	key := keys[n.op]
 	if key == "" {
 		return fmt.Errorf("bad op %q", n.op)
 	}
 	fmt.Fprintf(&out, "op, %s, %s := parseBinaryOp(%s)\n", l, r, arg)
 	fmt.Fprintf(&out, "if op != t.ID%s { return errFailed }\n", key)
+	// A variable that occurs more than once in the claim (e.g. the two a's in
+	// "a <= (a + b)") must match the same expression each time.
+	if lFirst != "" {
+		fmt.Fprintf(&out, "if !%s.Eq(%s) { return errFailed }\n", lFirst, l)
+	}
+	if rFirst != "" {
+		fmt.Fprintf(&out, "if !%s.Eq(%s) { return errFailed }\n", rFirst, r)
+	}
 	if l[0] == 't' {
 		if err := genParseBinaryOps(n.lhs, l); err != nil {
 			return err
@@ -163,6 +173,17 @@ func genParseBinaryOps(n *node, arg string) error {
 		}
 	}
 	return nil
+}
+
+// genClaimName is like genName but, for a variable that the claim's pattern
+// has already bound, it returns a fresh name (to bind this occurrence to) and
+// the name of the first occurrence (to compare it with).
+func genClaimName(n *node) (name string, firstOccurrence string) {
+	if isVariable(n.op) && names[n.op] {
+		nextDup++
+		return fmt.Sprintf("x%s%d", n.op, nextDup), "x" + n.op
+	}
+	return genName(n), ""
 }
 
 func genName(n *node) string {
